@@ -300,6 +300,8 @@ func refreshFolderMetadata(id string, dashboardDetails map[string]interface{}, m
 	if !ok {
 		return fmt.Errorf("folder key not found in dashboard details")
 	}
+	breadcrumbs := generateBreadcrumbs(folderID, structure)
+
 	switch fData := folderVal.(type) {
 	case map[string]interface{}:
 		pathVal, pathExists := fData["path"]
@@ -312,7 +314,9 @@ func refreshFolderMetadata(id string, dashboardDetails map[string]interface{}, m
 			return fmt.Errorf("path value is not a string, type: %T", pathVal)
 		}
 
-		if storedPath == currentPath {
+		// The path alone does not identify the chain of folders (a folder can be renamed and its
+		// old name given to another folder, names can contain '/'), so compare the whole folder info.
+		if storedPath == currentPath && storedFolderInfoMatches(fData, folderID, currentFolder.Name, breadcrumbs) {
 			return nil
 		}
 	default:
@@ -320,8 +324,6 @@ func refreshFolderMetadata(id string, dashboardDetails map[string]interface{}, m
 	}
 
 	folderPath := currentPath
-
-	breadcrumbs := generateBreadcrumbs(folderID, structure)
 
 	dashboardDetails["folder"] = map[string]interface{}{
 		"id":          folderID,
@@ -337,6 +339,36 @@ func refreshFolderMetadata(id string, dashboardDetails map[string]interface{}, m
 	}
 
 	return os.WriteFile(dashboardDetailsFname, detailsData, 0644)
+}
+
+// storedFolderInfoMatches returns true if the folder id, folder name and breadcrumbs stored in the
+// details of a dashboard (as unmarshalled from its details file) are the given current ones.
+func storedFolderInfoMatches(fData map[string]interface{}, folderID string, folderName string, breadcrumbs []Breadcrumb) bool {
+	if storedID, _ := fData["id"].(string); storedID != folderID {
+		return false
+	}
+	if storedName, _ := fData["name"].(string); storedName != folderName {
+		return false
+	}
+
+	storedBreadcrumbs, ok := fData["breadcrumbs"].([]interface{})
+	if !ok || len(storedBreadcrumbs) != len(breadcrumbs) {
+		return false
+	}
+	for i, val := range storedBreadcrumbs {
+		stored, ok := val.(map[string]interface{})
+		if !ok {
+			return false
+		}
+		if storedID, _ := stored["id"].(string); storedID != breadcrumbs[i].ID {
+			return false
+		}
+		if storedName, _ := stored["name"].(string); storedName != breadcrumbs[i].Name {
+			return false
+		}
+	}
+
+	return true
 }
 
 func updateDashboard(id string, dName string, dashboardDetails map[string]interface{}, myid int64) error {
